@@ -1,15 +1,15 @@
-\* quick: 2 callers through wait_for_*/create_*, 2 messages in batches <= 2, one cancel, one timeout; exhaustive
+\* quick: one message; 2 callers, a listener of MessageReceivedEvent that suspends (slow listener) for one message, one cancel and one timeout that may land inside the suspension, registrations too; exhaustive, graph dumped, edge cover replayed
 SPECIFICATION Spec
 CONSTANTS
   Callers = {1, 2}
-  Specs <- SpecsQ
-  Msgs <- MsgsQ
+  Specs <- SpecsG
+  Msgs <- MsgsG
   Apis = {"wait"}
-  MaxFeeds = 2
-  MaxBatch = 2
+  MaxFeeds = 1
+  MaxBatch = 1
   MaxCancel = 1
   MaxDue = 1
-  MaxSlow = 0
+  MaxSlow = 1
   MaxSendFail = 0
   SendHops = 4
   SkipDoneFutures = TRUE
